@@ -123,7 +123,7 @@ def build_lib(variant="O1"):
         if rc != 0:
             raise BuildError("ar failed", log)
         atomic_install(tmp, lib)
-    prune(os.path.join(BUILD, "lib"), keep=8)
+    prune(os.path.join(BUILD, "lib"), keep=24)
     return lib
 
 
